@@ -222,6 +222,62 @@ def sites_of(path, relname):
     return out
 
 
+def connect_table(repo):
+    """Client.accept (inherited by ClientTls): how the RETURN code of cs.connect_ex() is handled.
+    Expected shape (fail-closed):
+        if result not in [<connected codes>]:
+            if result in (<reopen codes>):
+                self.reopen()
+            return False
+    returns (connected codes, reopen codes) as lists of (name, int)"""
+    path = os.path.join(repo, "ioflo/aio/tcp/clienting.py")
+    tree = ast.parse(open(path).read(), filename=path)
+    classes = dict((n.name, n) for n in tree.body if isinstance(n, ast.ClassDef))
+    if "Client" not in classes or "ClientTls" not in classes:
+        raise TranslationError("Client / ClientTls not found")
+    if any(isinstance(n, ast.FunctionDef) and n.name == "accept" for n in classes["ClientTls"].body):
+        raise TranslationError("ClientTls overrides accept")
+    fns = [n for n in classes["Client"].body if isinstance(n, ast.FunctionDef) and n.name == "accept"]
+    if len(fns) != 1:
+        raise TranslationError("Client.accept not found")
+    fn = fns[0]
+    calls = [n for n in ast.walk(fn) if isinstance(n, ast.Assign) and src(n.value) == "self.cs.connect_ex(self.ha)"
+             and src(n.targets[0]) == "result"]
+    if len(calls) != 1:
+        raise TranslationError("Client.accept: expected exactly one `result = self.cs.connect_ex(self.ha)`")
+    outer = [n for n in fn.body if isinstance(n, ast.If) and "result" in src(n.test)]
+    if len(outer) != 1:
+        raise TranslationError("Client.accept: expected exactly one top-level test of result")
+    o = outer[0]
+
+    def codes(node):
+        if not isinstance(node, (ast.List, ast.Tuple)):
+            raise TranslationError("Client.accept: code collection is not a literal list/tuple: %s" % src(node))
+        out = []
+        for e in node.elts:
+            if isinstance(e, ast.Constant) and isinstance(e.value, int) and not isinstance(e.value, bool):
+                out.append((str(e.value), int(e.value)))
+            else:
+                m = member(e)
+                if m[0] != "MInt":
+                    raise TranslationError("Client.accept: non-int code %s" % src(e))
+                out.append((m[1], m[2]))
+        return out
+    t = o.test
+    if not (isinstance(t, ast.Compare) and len(t.ops) == 1 and isinstance(t.ops[0], ast.NotIn) and src(t.left) == "result"):
+        raise TranslationError("Client.accept: outer test is not `result not in [...]`: %s" % src(t))
+    ok = codes(t.comparators[0])
+    if o.orelse or len(o.body) != 2 or not isinstance(o.body[0], ast.If) or src(o.body[1]) != "return False":
+        raise TranslationError("Client.accept: unexpected body of the not-connected branch")
+    i = o.body[0]
+    ti = i.test
+    if not (isinstance(ti, ast.Compare) and len(ti.ops) == 1 and isinstance(ti.ops[0], ast.In) and src(ti.left) == "result"):
+        raise TranslationError("Client.accept: inner test is not `result in (...)`: %s" % src(ti))
+    if i.orelse or [src(x) for x in i.body] != ["self.reopen()"]:
+        raise TranslationError("Client.accept: inner branch is not just self.reopen()")
+    return ok, codes(ti.comparators[0])
+
+
 # ---------------------------------------------------------------------------- rendering
 def r_member(m):
     if m[0] == "MInt":
@@ -274,6 +330,11 @@ def generate(repo):
         body = ";\n".join("   (%s,\n    %s)" % (c, r_decision(d)) for c, d in clauses)
         lines.append("Definition %s : trysite :=\n  [%s]." % (ident(name), body.lstrip()))
         lines.append("")
+    ok, reopen = connect_table(repo)
+    lines.append("(* Client.accept / ClientTls.accept: handling of the RETURN code of connect_ex *)")
+    lines.append("Definition connect_ok_codes : list Z := [%s].   (* %s *)" % ("; ".join(str(v) for _, v in ok), ", ".join(n for n, _ in ok)))
+    lines.append("Definition connect_reopen_codes : list Z := [%s].   (* %s *)" % ("; ".join(str(v) for _, v in reopen), ", ".join(n for n, _ in reopen)))
+    lines.append("")
     for qual, rel, lineno, why in skipped_log:
         lines.append("(* SKIPPED %s (%s line %d): %s *)" % (qual, rel, lineno, why))
     lines.append("Definition sites : list (string * trysite) :=\n  [%s]." % ";\n   ".join(
